@@ -46,6 +46,16 @@ namespace tfel::math {
     return verif::abs(s);
   }
 }  // namespace tfel::math
+#include "TFEL/Math/General/BasicOperations.hxx"
+#include "TFEL/Math/General/UnaryResultType.hxx"
+namespace tfel::math {
+  //! unary minus on the recording scalar (missing from symtrace/glue.hxx, which is shared; same specialisation as
+  //! harness/C17/c17prog.hxx): needed by StensorComputeEigenTensorsDerivatives<2u> (`dn1_ds = -dn0_ds`)
+  template <>
+  struct ComputeUnaryOperationResult<ScalarTag, UnaryOperatorTag, verif::Sym, OpNeg> {
+    using type = verif::Sym;
+  };
+}  // namespace tfel::math
 
 #include "TFEL/Math/stensor.hxx"
 #include "TFEL/Math/st2tost2.hxx"
@@ -463,10 +473,43 @@ void trace_dim() {
 //! defined in trace_abs.cxx (a translation unit without the overload of tfel::math::abs above)
 void trace_abs();
 
+//! audit units (see the comment inside): traced AFTER every other unit so that the generated Lean files of the
+//! existing units stay byte-identical (later units would otherwise be renumbered)
+template <unsigned short N>
+static void trace_eigen_tensors_derivatives() {
+  constexpr int S = StensorDimeToSize<N>::value;
+  verif::ctx().concolic = true;
+    // mutation audit 2026-09-22: derivatives of the eigen-tensors n_i (x) n_i (StensorComputeEigenVectorsDerivatives.hxx,
+    // stensor::computeEigenTensorsDerivatives), one unit per branch of regularized_inverse for the pair (0,1):
+    // gap above eps (1/x), inside eps (regularisation x (4 - x^2/eps^2)/(3 eps^2)), exactly zero (0). These "X" units have no
+    // theorem: checks/C05.py evaluates them exactly against checks/c05ref.py (eigtd_action) and does not emit them to Lean.
+    const std::vector<Pattern> xp = {{"dist", 1., 2., 3.5, 0.01}, {"reg", 1., 1.004, 3.5, 0.01}, {"zero", 1., 1., 3.5, 0.01}};
+    for (const auto& p : xp) {
+      Unit u("X" + std::to_string(N) + "_eigtd_" + p.name);
+      rotation_matrix<Sym> m;
+      tvector<3u, Sym> vp;
+      inputs_vp_m<N>(vp, m, p);
+      const Sym eps = verif::scalar_input("eps", p.eps);
+      st2tost2<N, Sym> d0, d1, d2;
+      stensor<N, Sym>::computeEigenTensorsDerivatives(d0, d1, d2, vp, m, eps);
+      verif::outputs2("a", d0, S, S);
+      verif::outputs2("b", d1, S, S);
+      verif::outputs2("e", d2, S, S);
+      // eigenvalue derivatives = eigen-tensors (same nodes as computeEigenTensors)
+      const auto [n0, n1, n2] = stensor<N, Sym>::computeEigenValuesDerivatives(m);
+      verif::outputs("va", n0, S);
+      verif::outputs("vb", n1, S);
+      verif::outputs("ve", n2, S);
+    }
+  verif::ctx().concolic = false;
+}
+
 int main() {
   trace_abs();
   trace_dim<1>();
   trace_dim<2>();
   trace_dim<3>();
+  trace_eigen_tensors_derivatives<2>();
+  trace_eigen_tensors_derivatives<3>();
   return 0;
 }
